@@ -31,6 +31,10 @@ Types(c) == << [name |-> "colour", k |-> "enum", items |-> <<"red", "green", "bl
                [name |-> "cnt", k |-> "simple", items |-> <<>>, members |-> <<>>, base |-> T("INTEGER")],
                [name |-> "pick", k |-> "select", items |-> <<>>, members |-> <<"e1", "lab", "cnt">>, base |-> T("")],
                [name |-> "ilist", k |-> "aggr", items |-> <<>>, members |-> <<>>, base |-> Agg("LIST", 1, 3, "INTEGER")] >>
+            \o (IF c.ak = 1 THEN <<>> ELSE
+                << [name |-> "colour2", k |-> "rename", items |-> <<>>, members |-> <<>>, base |-> T("colour")],
+                   [name |-> "pick2", k |-> "rename", items |-> <<>>, members |-> <<>>, base |-> T("pick")],
+                   [name |-> "nest", k |-> "aggr", items |-> <<>>, members |-> <<>>, base |-> Agg("LIST", 1, 2, "LIST [1:2] OF INTEGER")] >>)
 RootAttrs(ak) ==
   CASE ak = 1 -> <<A("a1", T("INTEGER"), FALSE), A("a2", T("REAL"), TRUE)>>
     [] ak = 2 -> <<A("a1", T("INTEGER"), FALSE), A("a2", T("colour"), FALSE), A("a3", T("lab"), TRUE), A("a4", Agg("LIST", 1, 3, "INTEGER"), FALSE)>>
@@ -71,7 +75,7 @@ Choices(deep) ==
      i \in (IF deep THEN {"none", "chain", "multi", "fan"} ELSE {"chain", "multi"}),
      s \in (IF deep THEN {"none", "oneof", "andor"} ELSE {"none", "oneof"}),
      a \in (IF deep THEN BOOLEAN ELSE {FALSE}), k \in (IF deep THEN 1..3 ELSE {2, 3}), r \in BOOLEAN,
-     x \in (IF deep THEN BOOLEAN ELSE {FALSE})}
+     x \in BOOLEAN}
 
 (* ------------------------------------------------------------------ single-fault mutants (C04, C20) *)
 (* [class, at: index of the entity/type concerned, lexeme: the offending name a diagnostic should quote ("" = none), *)
@@ -96,6 +100,24 @@ LexMutants ==
   {M("lex_underscore_ident", 1, "_bad", "BAD_IDENTIFIER"), M("lex_unexpected_char", 1, "~", "UNEXPECTED_CHARACTER"),
    M("lex_nonascii", 1, "0xe9", "NONASCII_CHAR"), M("lex_bad_hex_digit", 1, "G", "ENCODED_STRING_BAD_DIGIT"),
    M("lex_bad_hex_count", 1, "6", "ENCODED_STRING_BAD_COUNT"), M("argcount", 1, "f1", "WRONG_ARG_COUNT")}
+
+(* ------------------------------------------------------------------ files the C++ generator writes (C17) *)
+(* one header/implementation pair per entity, per enumeration and per select that is declared with its own items / *)
+(* member list; simple, aggregate and renamed (TYPE t2 = t1) types get none; plus the fixed per-schema files       *)
+Files(s) == {[k |-> "entity", name |-> s.ents[i].name] : i \in 1..Len(s.ents)}
+            \cup {[k |-> s.types[i].k, name |-> s.types[i].name] : i \in {j \in 1..Len(s.types) : s.types[j].k \in {"enum", "select"}}}
+
+(* ------------------------------------------------------------------ the run-time dictionary (C02) *)
+SubsOf(s, n) == {s.ents[i].name : i \in {j \in 1..Len(s.ents) : n \in Range(s.ents[j].supers)}}
+DictEntity(s, e) == [name |-> e.name, abstract |-> e.abstract, supers |-> e.supers, subs |-> SubsOf(s, e.name),
+                     attrs |-> [i \in 1..Len(e.attrs) |-> [name |-> e.attrs[i].name, opt |-> e.attrs[i].opt, ty |-> e.attrs[i].ty]],
+                     derived |-> [i \in 1..Len(e.derive) |-> [name |-> e.derive[i].name, ty |-> e.derive[i].ty]],
+                     inverse |-> [i \in 1..Len(e.inverse) |-> [name |-> e.inverse[i].name, ent |-> e.inverse[i].ent,
+                                                               attr |-> e.inverse[i].attr, setof |-> e.inverse[i].setof]]]
+(* known deviations of the generator (never part of the property): defined types that get no dictionary entry *)
+Dev_RenamedEnumNotRegistered(s, t) == t.k = "rename" /\ \E i \in 1..Len(s.types) : s.types[i].name = t.base.base /\ s.types[i].k = "enum"
+Dev_NestedAggrNotRegistered(s, t) == t.k = "aggr" /\ t.name = "nest"      \* the family's only aggregate of aggregates
+Dictionary(s) == [entities |-> [i \in 1..Len(s.ents) |-> DictEntity(s, s.ents[i])], types |-> s.types]
 
 (* ------------------------------------------------------------------ Part 21 attribute order (C02, C18) *)
 EntByName(s, n) == s.ents[CHOOSE i \in 1..Len(s.ents) : s.ents[i].name = n]
